@@ -12,7 +12,7 @@ CONSTANTS MaxV,          \* cores carry 1..MaxV voltage measurements
           Surplus,       \* cores have at most NState + Surplus measurements (0: exactly determined)
           Reds, Dups, Ords,   \* classes the actions may choose (subsets of RedClasses, DupClasses, OrdClasses)
           Depth,         \* at most Depth of the three dimensions are changed
-          Deficient      \* TRUE: also start from cores with fewer than NState measurements (conformance of the count test)
+          Deficient      \* TRUE: also start from sets with fewer than NState measurements (conformance of the count test)
 VARIABLES s, out
 
 BoolSeqs == [1..NBus -> BOOLEAN]
@@ -20,7 +20,7 @@ Family == [v : BoolSeqs, inj : BoolSeqs, fl : [BrId -> FlowPats]]
 NV(c) == Cardinality({b \in 1..NBus : c.v[b]})
 Size(c) == Cardinality(CoreSlots(c))
 Cores == {c \in Family : NV(c) >= 1 /\ NV(c) <= MaxV /\ Size(c) <= NState + Surplus /\ Observable(CoreSlots(c))}
-\* one measurement short of the count: v at one bus, injections at all buses but two
+\* below the count NState: v at one bus, injection pairs at all buses but two (2 n - 3 measurements), no flows
 Short == {c \in Family : NV(c) = 1 /\ Size(c) = NState - 2 /\ \A k \in BrId : c.fl[k] = "none"}
 Start == IF Deficient THEN Cores \cup Short ELSE Cores
 
